@@ -44,6 +44,12 @@ def _towers(rng, n_rand):
         # N3LO: stay inside the real-Cardano domain of roots() (checked below), positive b3
         b3 = float(10 ** rng.uniform(0.0, 3.5))
         out.append((f"random-{i}", None, [beta0, beta0 * b1, beta0 * b2, beta0 * b3]))
+    # towers exactly on the internal boundaries of the Cardano formula, where the polynomial itself is
+    # perfectly regular: d2 = -2 b2^3 + 9 b1 b2 b3 - 27 b3^2 = 0 (sign change of the cube-root argument)
+    # and d1 = -b2^2 + 3 b1 b3 = 0; beta0 = 8 and dyadic rescalings a -> s a keep the zeros exact
+    for i, (b1, b2, b3) in enumerate([(3.0, 3.0, 2.0), (4.0, 6.0, 4.0), (4.5, 3.0, 4.0), (6.0, 6.0, 2.0)]):
+        for s_ in (1.0, 2.0, 4.0, 0.5):
+            out.append((f"cardano-boundary-{i}-x{s_:g}", None, [8.0, 8.0 * b1 * s_, 8.0 * b2 * s_**2, 8.0 * b3 * s_**3]))
     # perturbed-physical towers (always in the domain of the closed forms)
     for i in range(n_rand):
         nf = int(rng.integers(3, 7))
